@@ -121,8 +121,7 @@ Proof.
     { inversion Hz as [? ? ? E1 E2|? t' val' x' Hu' Ht' Hn' Hval' Hz' E1 E2]; [done|].
       exfalso. subst. assert (is_Some (values !! t_lvl t')) as Hs by (by eexists).
       apply Hvals in Hs. unfold lvl_of in Hcb. rewrite Ht' in Hcb. lia. }
-    exists (absn u), t. rewrite Habs. split_and!; try done; try lia.
-    + subst c. destruct val; [by right|by left].
-    + by left.
+    exists (absn u), t. rewrite Habs. split_and!; try done; try lia; try (by left).
+    subst c. destruct val; [by right|by left].
 Qed.
 End zone.
